@@ -170,3 +170,10 @@ Definition wfn_prog : sprog :=
   (SSeq (SNode (sw_outkey 4) 4 (spec_simple 3 "n4" 10 0 false true false false 2 false))
   (SSeq (SMap (FTake 4 true))
         (SNode sw_none 5 (spec_simple 1 "n5" 0 0 false false false true 0 false))))).
+
+(* a node of kind 4 (the input map under a key) whose only native is the chunk-by-chunk
+   transformer, behind a Stream-native map producer that emits its map key by key *)
+Definition wrap_prog : sprog :=
+  SSeq (SNode sw_none 1 (spec_simple 2 "n1" 2 3 false true false false 1 false))
+  (SSeq (SNode sw_none 2 (spec_simple 4 "n2" 5 0 false false false true 0 true))
+        (SNode sw_none 3 (spec_simple 1 "n3" 0 0 false false true false 0 false))).
